@@ -2,6 +2,8 @@ import ParryModel.Proto
 import ParryModel.C01.Model
 import ParryModel.C01.Oracle
 import ParryModel.C01.DriverGjk
+import ParryModel.C01.ModelGlue
+import ParryModel.C01.ModelGlue2
 /-! C01 protocol handlers: model evaluation at `Float` (closed forms, SAT) and exact-`Rat` certificate oracles on the
 implementation's output (closed forms **and** the end-to-end `query::distance` / `query::closest_points`). -/
 namespace C01
@@ -443,8 +445,98 @@ def judgeSat (A B : Placed) (planar : Bool) (sep : Float) (axisNormSq : Rat) : S
   | none => "skip no-exact-distance"
   | some D => if q sep ≤ D + tol then "pass" else s!"fail separation-exceeds-distance sep={showQ (q sep)} true={showQ D}"
 
+/-! ### bit-exact model of the public entry points `query::closest_points` / `query::distance` (`cpw3`, `dw3`): routing of the
+dispatcher + `inv_mul` + the wrappers around the kernels + `transform_by` (C01/ModelGlue.lean) -/
+open Model.Glue in
+def pdshCore3 (k : String) : P (DSh3 Float) := do
+  match k with
+  | "halfspace" => do let n ← pv3; pure (.halfspace n)
+  | "cuboid" => do let h ← pv3; pure (.cuboid h)
+  | "segment" => do let a ← pv3; let b ← pv3; pure (.segment a b)
+  | "triangle" => do let a ← pv3; let b ← pv3; let c ← pv3; pure (.triangle a b c)
+  | "capsule" => do let a ← pv3; let b ← pv3; let r ← pf; pure (.capsule a b r)
+  | "cone" => do let h ← pf; let r ← pf; pure (.cone h r)
+  | "cylinder" => do let h ← pf; let r ← pf; pure (.cylinder h r)
+  | "ball" => do let r ← pf; pure (.ball r)
+  | _ => failure
+open Model.Glue in
+def pdsh3 : P (DSh3 Float) := do
+  let k ← tok
+  if k = "round" then do let k2 ← tok; let i ← pdshCore3 k2; let r ← pf; pure (.round i r) else pdshCore3 k
+
+def modelCpw3 (a : List String) : Option String :=
+  (run (do let m ← pf; let s1 ← pdsh3; let p1 ← piso3; let s2 ← pdsh3; let p2 ← piso3; pure (m, s1, p1, s2, p2)) a).map
+    fun (m, s1, p1, s2, p2) => fcpo3 (Model.Glue.closestPointsWorld3 p1 s1 p2 s2 m)
+def modelDw3 (a : List String) : Option String :=
+  (run (do let s1 ← pdsh3; let p1 ← piso3; let s2 ← pdsh3; let p2 ← piso3; pure (s1, p1, s2, p2)) a).map
+    fun (s1, p1, s2, p2) => match Model.Glue.distanceWorld3 p1 s1 p2 s2 with | some x => ff x | none => "panic"
+
+open Model.Glue in
+def pdshCore2 (k : String) : P (DSh2 Float) := do
+  match k with
+  | "halfspace" => do let n ← pv2; pure (.halfspace n)
+  | "cuboid" => do let h ← pv2; pure (.cuboid h)
+  | "segment" => do let a ← pv2; let b ← pv2; pure (.segment a b)
+  | "triangle" => do let a ← pv2; let b ← pv2; let c ← pv2; pure (.triangle a b c)
+  | "capsule" => do let a ← pv2; let b ← pv2; let r ← pf; pure (.capsule a b r)
+  | "ball" => do let r ← pf; pure (.ball r)
+  | _ => failure
+open Model.Glue in
+def pdsh2 : P (DSh2 Float) := do
+  let k ← tok
+  if k = "round" then do let k2 ← tok; let i ← pdshCore2 k2; let r ← pf; pure (.round i r) else pdshCore2 k
+
+def modelCpw2 (a : List String) : Option String :=
+  (run (do let m ← pf; let s1 ← pdsh2; let p1 ← piso2; let s2 ← pdsh2; let p2 ← piso2; pure (m, s1, p1, s2, p2)) a).map
+    fun (m, s1, p1, s2, p2) => fcpo2 (Model.Glue.closestPointsWorld2 p1 s1 p2 s2 m)
+def modelDw2 (a : List String) : Option String :=
+  (run (do let s1 ← pdsh2; let p1 ← piso2; let s2 ← pdsh2; let p2 ← piso2; pure (s1, p1, s2, p2)) a).map
+    fun (s1, p1, s2, p2) => match Model.Glue.distanceWorld2 p1 s1 p2 s2 with | some x => ff x | none => "panic"
+
+/-- world form without hint tail (the bit-exact entries print the bare result) -/
+def oracleCPWorldBare (dim3 : Bool) (a o : List String) : String :=
+  let parsed := if dim3 then
+      run (do let m ← pf; let s1 ← pshape3; let p1 ← piso3; let s2 ← pshape3; let p2 ← piso3
+              pure (q m, (⟨s1, Aff.ofIso3 (qiso3 p1)⟩ : Placed), (⟨s2, Aff.ofIso3 (qiso3 p2)⟩ : Placed))) a
+    else
+      run (do let m ← pf; let s1 ← pshape2; let p1 ← piso2; let s2 ← pshape2; let p2 ← piso2
+              pure (q m, (⟨s1, Aff.ofIso2 (qiso2 p1)⟩ : Placed), (⟨s2, Aff.ofIso2 (qiso2 p2)⟩ : Placed))) a
+  match parsed with
+  | none => "skip bad-args"
+  | some (m, A, B) =>
+    match run (praw dim3) o with
+    | none => "fail unparsable-output"
+    | some r =>
+      match r.toRes id id with
+      | none => s!"fail route={A.sh.kind}x{B.sh.kind} non-finite-witness"
+      | some res => judgeCP A B m res [] [] (!dim3) (roundScale A B)
+
+def oracleDistWorldBare (dim3 : Bool) (a o : List String) : String :=
+  let parsed := if dim3 then
+      run (do let s1 ← pshape3; let p1 ← piso3; let s2 ← pshape3; let p2 ← piso3
+              pure ((⟨s1, Aff.ofIso3 (qiso3 p1)⟩ : Placed), (⟨s2, Aff.ofIso3 (qiso3 p2)⟩ : Placed))) a
+    else
+      run (do let s1 ← pshape2; let p1 ← piso2; let s2 ← pshape2; let p2 ← piso2
+              pure ((⟨s1, Aff.ofIso2 (qiso2 p1)⟩ : Placed), (⟨s2, Aff.ofIso2 (qiso2 p2)⟩ : Placed))) a
+  match parsed with
+  | none => "skip bad-args"
+  | some (A, B) =>
+    match o with
+    | "U" :: _ => "skip unsupported-pair"
+    | "panic" :: _ => s!"fail route={A.sh.kind}x{B.sh.kind} panic"
+    | _ =>
+    match run pfo o with
+    | none => "fail unparsable-output"
+    | some x =>
+      if !okF x then s!"fail route={A.sh.kind}x{B.sh.kind} non-finite-distance" else
+      judgeDist A B (q x) [] [] (!dim3) (roundScale A B)
+
 def handler (fn : String) : Option Handler :=
   match fn with
+  | "cpw3" => some { model := modelCpw3, oracle := oracleCPWorldBare true }
+  | "dw3" => some { model := modelDw3, oracle := oracleDistWorldBare true }
+  | "cpw2" => some { model := modelCpw2, oracle := oracleCPWorldBare false }
+  | "dw2" => some { model := modelDw2, oracle := oracleDistWorldBare false }
   | "distance_ball_ball" => some {
       model := fun a => run (do let r1 ← pf; let r2 ← pf; let c ← pv3; pure (ff (distanceBallBall r1 r2 c))) a
       oracle := fun a o => match run (do let r1 ← pf; let r2 ← pf; let c ← pv3; pure (r1, r2, c)) a with
